@@ -19,6 +19,11 @@ class SeqPolicy(terms.Policy):
         return not body["vis"].startswith("Public")
 
 
+class ForkPolicy(SeqPolicy):
+    """SeqPolicy + std Option/Result/bool combinators on symbolic values presented as the `match` they abbreviate"""
+    fork_std = True
+
+
 class InlineAll(terms.Policy):
     def inline(self, callee, body, depth):
         return True
